@@ -4,7 +4,9 @@ import (
 	"fmt"
 	"go/token"
 	"go/types"
+	"os"
 	"regexp"
+	"sort"
 	"strconv"
 	"strings"
 
@@ -20,6 +22,16 @@ func (vc *VC) chanClosed(st *State) *Term {
 		vc.axiom("(forall ((r Int)) (! (=> (> r alloc_0) (not (select CHclosed_0 r))) :pattern ((select CHclosed_0 r))))")
 	}
 	return h
+}
+
+// modVal: the value a modifies target takes after the call: arbitrary at a call site; in the frame check of the
+// function's own body (vc.witness = the state at its return) the value that state actually holds there, so that
+// "nothing else changed" can be compared heap by heap.
+func (vc *VC) modVal(hint string, s *Sort, wit func(w *State) *Term) *Term {
+	if vc.witness != nil {
+		return wit(vc.witness)
+	}
+	return vc.fresh(hint, s)
 }
 
 var txnBoundRE = regexp.MustCompile(`^txncount\(\) <= (\d+)$`)
@@ -698,28 +710,46 @@ func (vc *VC) havocLocation(env *Env, st *State, m Expr, ct *Contract) {
 	case *EIdent:
 		switch x.Name {
 		case "clock":
+			if w := vc.witness; w != nil {
+				st.clock = w.clock
+				return
+			}
 			nc := vc.fresh("clock", sortInt)
 			st.assume(Bin(sortBool, ">=", nc, st.clock))
 			st.clock = nc
 			return
 		case "alloc":
+			if w := vc.witness; w != nil {
+				st.alloc = w.alloc
+				return
+			}
 			na := vc.fresh("alloc", sortInt)
 			st.assume(Bin(sortBool, ">=", na, st.alloc))
 			st.alloc = na
 			return
 		case "everything":
+			if w := vc.witness; w != nil {
+				for k, v := range w.heaps {
+					st.heaps[k] = v
+				}
+				for k, v := range w.ghosts {
+					st.ghosts[k] = v
+				}
+				st.clock, st.alloc = w.clock, w.alloc
+				return
+			}
 			vc.havocAll(st)
 			return
 		}
 		if g, ok := vc.eng.db.Ghosts[x.Name]; ok && !g.Field {
 			_, gs := env.inPkg(g.Pkg).resolveType(g.Type)
-			st.ghosts[g.Name] = vc.fresh("G_"+g.Name, gs)
+			st.ghosts[g.Name] = vc.modVal("G_"+g.Name, gs, func(w *State) *Term { return vc.ghostVar(w, g) })
 			return
 		}
 		if g, ok := vc.eng.db.Ghosts[x.Name]; ok && g.Field {
 			// a bare ghost field name: that ghost field of every object
 			_, gs := env.inPkg(g.Pkg).resolveType(g.Type)
-			st.heaps["GF_"+g.Name] = vc.fresh("GF_"+g.Name, T.ArrayOf(sortInt, gs))
+			st.heaps["GF_"+g.Name] = vc.modVal("GF_"+g.Name, T.ArrayOf(sortInt, gs), func(w *State) *Term { return vc.ghostFieldHeap(w, g, gs) })
 			return
 		}
 		// a map- or pointer-typed parameter: its contents / pointee
@@ -733,7 +763,8 @@ func (vc *VC) havocLocation(env *Env, st *State, m Expr, ct *Contract) {
 			if base.T == nil || !hasGoField(base.T, x.Name) {
 				_, gs := env.inPkg(g.Pkg).resolveType(g.Type)
 				h := vc.ghostFieldHeap(st, g, gs)
-				vc.setHeap(st, "GF_"+g.Name, Store(h, env.refOf(base), vc.fresh("gf_"+g.Name, gs)))
+				ref := env.refOf(base)
+				vc.setHeap(st, "GF_"+g.Name, Store(h, ref, vc.modVal("gf_"+g.Name, gs, func(w *State) *Term { return Select(vc.ghostFieldHeap(w, g, gs), ref, gs) })))
 				return
 			}
 		}
@@ -755,7 +786,7 @@ func (vc *VC) havocLocation(env *Env, st *State, m Expr, ct *Contract) {
 			vc.havocValueContents(st, SV{vc.load(st, p), fv.Type()})
 			return
 		}
-		vc.store(st, p, vc.fresh("mod_"+x.Name, vc.targetSort(p)))
+		vc.store(st, p, vc.modVal("mod_"+x.Name, vc.targetSort(p), func(w *State) *Term { return vc.term(w, vc.load(w, p), "frame") }))
 		return
 	case *ECall:
 		if x.Fun == "contents" && len(x.Args) == 1 {
@@ -771,8 +802,8 @@ func (vc *VC) havocLocation(env *Env, st *State, m Expr, ct *Contract) {
 					if idx, _, ok := findFieldAnyPkg(pt, sel.Name); ok && len(idx) == 1 {
 						s := T.SortOf(pt)
 						p := &Ptr{Root: RObj, Base: base.V, Sort: s, Path: []PathStep{{Field: idx[0]}}}
-						fv := vc.fresh("mod_"+sel.Name, vc.targetSort(p))
-						if st2, ok := types.Unalias(pt).Underlying().(*types.Struct); ok {
+						fv := vc.modVal("mod_"+sel.Name, vc.targetSort(p), func(w *State) *Term { return vc.term(w, vc.load(w, p), "frame") })
+						if st2, ok := types.Unalias(pt).Underlying().(*types.Struct); ok && vc.witness == nil {
 							vc.typeFacts(st, fv, st2.Field(idx[0]).Type())
 						}
 						vc.store(st, p, fv)
@@ -789,7 +820,7 @@ func (vc *VC) havocLocation(env *Env, st *State, m Expr, ct *Contract) {
 				t, s := env.resolveType(id.Name)
 				_ = t
 				n, h := vc.objHeap(st, s)
-				st.heaps[n] = vc.fresh(n, h.Sort)
+				st.heaps[n] = vc.modVal(n, h.Sort, func(w *State) *Term { _, wh := vc.objHeap(w, s); return wh })
 				return
 			}
 		}
@@ -812,6 +843,14 @@ func (vc *VC) havocValueContents(st *State, v SV) {
 	case *types.Map:
 		ks, es := T.SortOf(u.Key()), T.SortOf(u.Elem())
 		mh := vc.mapHeapsOf(st, u)
+		if w := vc.witness; w != nil {
+			wh := vc.mapHeapsOf(w, u)
+			vc.setHeap(st, mh.pn, Store(mh.p, v.V, Select(wh.p, v.V, T.ArrayOf(ks, sortBool))))
+			vc.setHeap(st, mh.vn, Store(mh.v, v.V, Select(wh.v, v.V, T.ArrayOf(ks, es))))
+			vc.setHeap(st, mh.nn, Store(mh.n, v.V, Select(wh.n, v.V, sortInt)))
+			vc.measureHavocAt(st, u, v.V)
+			return
+		}
 		vc.setHeap(st, mh.pn, Store(mh.p, v.V, vc.fresh("mp", T.ArrayOf(ks, sortBool))))
 		vc.setHeap(st, mh.vn, Store(mh.v, v.V, vc.fresh("mv", T.ArrayOf(ks, es))))
 		n := vc.fresh("mn", sortInt)
@@ -821,11 +860,11 @@ func (vc *VC) havocValueContents(st *State, v SV) {
 	case *types.Pointer:
 		s := T.SortOf(u.Elem())
 		n, h := vc.objHeap(st, s)
-		vc.setHeap(st, n, Store(h, v.V, vc.fresh("pt", s)))
+		vc.setHeap(st, n, Store(h, v.V, vc.modVal("pt", s, func(w *State) *Term { _, wh := vc.objHeap(w, s); return Select(wh, v.V, s) })))
 	case *types.Slice:
 		es := T.SortOf(u.Elem())
 		n, h := vc.arrHeap(st, es)
-		vc.setHeap(st, n, Store(h, sliceArr(v.V), vc.fresh("sa", T.ArrayOf(sortInt, es))))
+		vc.setHeap(st, n, Store(h, sliceArr(v.V), vc.modVal("sa", T.ArrayOf(sortInt, es), func(w *State) *Term { _, wh := vc.arrHeap(w, es); return Select(wh, sliceArr(v.V), T.ArrayOf(sortInt, es)) })))
 	default:
 		specFail("modifies: %s has no contents", v.T)
 	}
@@ -1214,6 +1253,59 @@ func (vc *VC) finish(st *State, f *Frame, res []Value, pos token.Pos) {
 			}
 			igoals = append(igoals, implGoal{"post[" + lastSeg(key) + "." + cl.Label + "]", props, t})
 		}
+		// the frame of the interface contract: callers assume that every abstract field it does not list under
+		// modifies is left as it was; through the abstraction that is a statement about this implementation
+		if ict.ModSet && os.Getenv("VERIF_NO_FRAME") == "" {
+			modded := map[string]bool{}
+			all := false
+			for _, m := range ict.Modifies {
+				switch x := m.(type) {
+				case *EIdent:
+					if x.Name == "everything" {
+						all = true
+					}
+					modded[x.Name] = true
+				case *ESel:
+					if id, ok := x.X.(*EIdent); ok && id.Name == "this" {
+						modded[x.Name] = true
+					}
+				}
+			}
+			if t0, _ := derefType(ienv.this.T); t0 != nil && !all {
+				if n, ok := types.Unalias(t0).(*types.Named); ok && n.Obj().Pkg() != nil {
+					defs := vc.eng.db.Abstractions[n.Obj().Pkg().Path()+"."+n.Obj().Name()]
+					var fields []string
+					for fname := range defs {
+						fields = append(fields, fname)
+					}
+					sort.Strings(fields)
+					for _, fname := range fields {
+						g, ok := vc.eng.db.Ghosts[fname]
+						if modded[fname] || !ok || !g.Field {
+							continue
+						}
+						src := fmt.Sprintf("this.%s == old(this.%s)", fname, fname)
+						if kt := ghostKeyType(g.Type); kt != "" {
+							src = fmt.Sprintf("forall fk %s :: this.%s[fk] == old(this.%s[fk])", kt, fname, fname)
+							if k2 := ghostKeyType(ghostValType(g.Type)); k2 != "" {
+								src = fmt.Sprintf("forall fk %s, fj %s :: this.%s[fk][fj] == old(this.%s[fk][fj])", kt, k2, fname, fname)
+							}
+						}
+						e, err := ParseExpr(src)
+						if err != nil {
+							vc.eng.specError(fmt.Sprintf("%s implements %s: frame of %s: %v", ct.Target, key, fname, err))
+							continue
+						}
+						t, err := ienv.inPkg(g.Pkg).EvalBool(e)
+						if err != nil {
+							vc.eng.specError(fmt.Sprintf("%s implements %s: frame of %s: %v", ct.Target, key, fname, err))
+							continue
+						}
+						igoals = append(igoals, implGoal{"post[" + lastSeg(key) + ".frame:" + fname + "]", vc.clauseProps(ct, &Clause{}), t})
+					}
+				}
+			}
+		}
 	}
 	vc.groupKey = fmt.Sprintf("%s#path%d", vc.key, vc.npaths)
 	vc.groupPrefix = ""
@@ -1222,6 +1314,154 @@ func (vc *VC) finish(st *State, f *Frame, res []Value, pos token.Pos) {
 	}
 	for _, g := range igoals {
 		vc.oblige(st, g.label, g.t, g.props, vc.posOf(pos))
+	}
+	vc.groupKey = ""
+	if ct.ModSet && !ct.Trusted && os.Getenv("VERIF_NO_FRAME") == "" {
+		vc.checkFrame(st, f, ct, pos)
+	}
+}
+
+// stripFreshStores removes, from the outside in, the stores of a heap term that write at references allocated
+// during the call (named heap definitions are unfolded on the way).
+func (vc *VC) stripFreshStores(h string) string {
+	for k := 0; k < 4096; k++ {
+		if body, ok := vc.defs[h]; ok {
+			h = body
+			continue
+		}
+		a, ok := ctorArgs(h, "store")
+		if !ok || len(a) != 3 || !isAllocRef(a[1]) {
+			return h
+		}
+		h = a[0]
+	}
+	return h
+}
+
+// checkFrame: the modifies clause of the function under contract is checked on its body. Callers assume that a call
+// leaves everything outside the callee's modifies clause as it was; here the state at each return is compared,
+// heap by heap, with the entry state in which exactly the modifies targets have been overwritten by the values the
+// return state holds there. Objects allocated during the call are the callee's own.
+func (vc *VC) checkFrame(fin *State, f *Frame, ct *Contract, pos token.Pos) {
+	e := vc.entry
+	s := fin.clone() // keeps the path condition (and the definitions it holds)
+	s.heaps = make(map[string]*Term, len(e.heaps))
+	for k, v := range e.heaps {
+		s.heaps[k] = v
+	}
+	s.ghosts = make(map[string]*Term, len(e.ghosts))
+	for k, v := range e.ghosts {
+		s.ghosts[k] = v
+	}
+	s.clock, s.alloc, s.epoch, s.epochAlloc = e.clock, e.alloc, e.epoch, e.epochAlloc
+	env := vc.envFor(e, f)
+	env.old = e
+	vc.witness = fin
+	nerr := len(vc.eng.specErrors)
+	for _, m := range ct.Modifies {
+		vc.havocLocation(env, s, m, ct)
+	}
+	vc.witness = nil
+	if len(vc.eng.specErrors) != nerr {
+		return
+	}
+	skip := func(name string) bool {
+		for _, p := range []string{"B_", "KV", "BUFSTR", "CTX", "spawn", "call_"} {
+			if strings.HasPrefix(name, p) {
+				return true
+			}
+		}
+		return false
+	}
+	names := map[string]bool{}
+	for k := range fin.heaps {
+		names[k] = true
+	}
+	for k := range s.heaps {
+		names[k] = true
+	}
+	var sorted []string
+	for k := range names {
+		if !skip(k) {
+			sorted = append(sorted, k)
+		}
+	}
+	sort.Strings(sorted)
+	// all goals are built first (building them declares constants), then emitted as one group: tried as a single
+	// conjunction and only split when that fails
+	type fgoal struct {
+		name string
+		t    *Term
+	}
+	var goals []fgoal
+	for _, name := range sorted {
+		var srt *Sort
+		if t, ok := fin.heaps[name]; ok {
+			srt = t.Sort
+		} else {
+			srt = s.heaps[name].Sort
+		}
+		fh, sh := vc.heap(fin, name, srt), vc.heap(s, name, srt)
+		if fh.S == sh.S {
+			continue
+		}
+		// writes to objects allocated during the call are the function's own: peel them off before comparing
+		if srt.Kind == KArray && srt.Key == sortInt && vc.stripFreshStores(fh.S) == vc.stripFreshStores(sh.S) {
+			continue
+		}
+		if eh, ok := e.heaps[name]; ok && eh.S != sh.S && !vc.thorough {
+			// the modifies clause names a location in this heap: the quick tier stops at heap granularity
+			// ("writes only heaps its modifies clause mentions"); the thorough tier compares location by location
+			continue
+		} else if !ok && !vc.thorough {
+			if _, touched := s.heaps[name]; touched && sh.S != name+"_0" {
+				continue
+			}
+		}
+		if srt.Kind != KArray {
+			goals = append(goals, fgoal{name, Eq(fh, sh)})
+			continue
+		}
+		q := fmt.Sprintf("fr%d", vc.nfresh)
+		vc.nfresh++
+		guard := "true"
+		if srt.Key == sortInt {
+			guard = fmt.Sprintf("(<= %s %s)", q, e.alloc.S)
+		}
+		goals = append(goals, fgoal{name, T(sortBool, fmt.Sprintf("(forall ((%s %s)) (=> %s (= (select %s %s) (select %s %s))))", q, srt.Key.Name, guard, fh.S, q, sh.S, q))})
+	}
+	gn := map[string]bool{}
+	for k := range fin.ghosts {
+		gn[k] = true
+	}
+	for k := range s.ghosts {
+		gn[k] = true
+	}
+	var gsorted []string
+	for k := range gn {
+		if !skip(k) {
+			gsorted = append(gsorted, k)
+		}
+	}
+	sort.Strings(gsorted)
+	for _, name := range gsorted {
+		g, ok := vc.eng.db.Ghosts[name]
+		if !ok {
+			continue
+		}
+		fg, sg := vc.ghostVar(fin, g), vc.ghostVar(s, g)
+		if fg.S == sg.S {
+			continue
+		}
+		goals = append(goals, fgoal{name, Eq(fg, sg)})
+	}
+	if fin.clock.S != s.clock.S {
+		goals = append(goals, fgoal{"clock", Eq(fin.clock, s.clock)})
+	}
+	vc.groupKey = fmt.Sprintf("%s#frame%d", vc.key, vc.npaths)
+	vc.groupPrefix = ""
+	for _, g := range goals {
+		vc.oblige(s, "frame["+g.name+"]", g.t, vc.clauseProps(ct, &Clause{}), vc.posOf(pos))
 	}
 	vc.groupKey = ""
 }
